@@ -156,6 +156,8 @@ def strata(tier):
     return [
         {'name': 'exhaustive_small_formats', 'kind': 'enum', 'exhaustive': True,
          'tasks': combprop.enum_tasks(X, W, bits, chunk=60), 'run_task': _run_task},
+        {'name': 'one_wire_on_two_ports', 'kind': 'hyp', 'examples': n // 4,
+         'strategy': lambda: combprop.alias_strategy(X), 'run_case': run_case},
         {'name': 'hypothesis_wide', 'kind': 'hyp', 'examples': n,
          'strategy': lambda: combprop.case_strategy(X), 'run_case': run_case},
     ]
